@@ -12,6 +12,9 @@ CHECKS = {
  'C10': ('model_checking', 'exhaustive schedule exploration of writer appends vs reader polls on the real FollowFileIterator through the FollowRetry hook: all contents up to the bound x all byte-level cuts x buffer capacities x stutter polls', 'stateless schedule enumeration on the real code via a cfg-guarded hook (environment moves = appends at the only observable point)', 'trusted: append atomicity per write(); DESIGN.md §5 C10 completeness argument'),
  'C11': ('model_checking', 'stateright BFS over input histories (state = history), invariant on every state: incremental driver == fresh batch driver of the real engine over the same prefix, one model per statement', 'explicit-state BFS (stateright) over histories with the real engine evaluated in the invariant', 'trusted: stateright 0.31; differential between two drivers of the same build'),
  'C12': ('exploration', 'all byte strings up to the bound over {a,b,LF,CR,é,FF} x every split into 1..3 files x SELECT/COUNT/joined side, against a reference line splitter', 'bounded-exhaustive input enumeration (bytes x file splits) against a reference line splitter', 'trusted: reference splitter (20 lines); CR handling compared modulo one trailing CR'),
+ 'C13': ('exploration', 'all two-operator expression trees (every ordered pair of the 12 binary operators in both shapes, every binary operator combined with NOT / unary minus / negative literals / casts / subscripts / IS / IN / CASE) and all three-operator trees (thorough): minimal-parentheses text vs fully parenthesised text must lower to the same statement and evaluate like the reference tree', 'bounded-exhaustive program enumeration (expression trees up to 3 operators) with a same-build structural oracle and a reference evaluator', 'trusted: reference grammar levels from the property; Debug of Statement is structural'),
+ 'C14': ('exploration', 'every prefix and single-token mutant of a statement corpus, all token sequences up to length 3 (4) over a 44 (52)-token vocabulary in 5 contexts, Unicode edge strings, named rejection cases, nesting to the documented bound on a 2 MiB stack, long flat texts in child processes; oracle: statement or located error, excerpt producible, never a panic/abort', 'bounded-exhaustive input enumeration (prefixes, token mutants, token soups) under catch_unwind and child-process isolation', 'trusted: documented nesting bound taken as 64; overflow checks on'),
+ 'C20': ('exploration', 'for every corpus statement every single-site layout variant (case flips, separators at every token boundary, comments at every boundary, semicolon, all clause permutations) must parse to the same statement (same build); string literal bodies in 5 contexts against a reference un-escaper', 'bounded-exhaustive enumeration of single-site layout variants with a same-build structural oracle', 'trusted: list of case-insensitive words in the harness'),
  'C15': ('model_checking', 'stateright BFS over input histories; invariants: result(history) == result(sorted history) (all permutations of all multisets up to the depth) and result(A++B) == combine(result(A), result(B)) at every cut', 'explicit-state BFS (stateright) over histories, metamorphic invariants on the real engine', 'trusted: stateright 0.31; combine() for COUNT/SUM/MIN/MAX in the harness'),
  'C16': ('exploration', 'exhaustive over a finite value domain: all same-type pairs and triples on Value\'s own operators, all consumer-level sequences up to the length bound, all INT x REAL comparison pairs', 'bounded-exhaustive enumeration of value pairs/triples and consumer inputs against order/equality/hash laws', 'trusted: rustc/std; TZ=UTC'),
  'C19': ('model_checking', 'all schedules of the interrupt store vs the executor\'s loads: interrupt before every load of the running flag (hooks) and after every printed record, for every statement x input x file split x joined-file size', 'stateless schedule enumeration on the real code via cfg-guarded hooks placed before each load of the shared flag', 'trusted: the flag is cleared at most once; DESIGN.md §5 C19 completeness argument'),
